@@ -58,6 +58,15 @@ A_PROGRAMS = {
     "eval-like-nested-fn-expr": "(function(){ let secret = 1; return (function(){ let inner = secret + 1; return (() => { let blockv = inner + 1; throw new Error('iife' + blockv); })(); })(); })()",
 }
 
+# the same kinds of run started through eval() (which drives itself to the first suspension and hands over to step())
+A_PROGRAMS.update({
+    "eval-script-order": {"src": "import { order } from 'tsrun:host'; async function run(){ let secret = 1; const got = await order('q'); let inner = got; return inner + secret; } await run()", "entry": "eval"},
+    "eval-script-plain": {"src": "function g(){ let secret = 5; let inner = secret * 2; return inner; } g()", "entry": "eval"},
+    "eval-module-order": {"src": "import { order } from 'tsrun:host'; export const e2 = 1; let secret = await order('q'); export const got = secret; got", "path": "/a/evalmain.ts", "entry": "eval"},
+    "eval-module-throws": {"src": "export const early = 1; let secret = 2; throw new Error('em' + secret);", "path": "/a/evalthrows.ts", "entry": "eval"},
+    "module-exports-then-throws": {"src": "export const stale1 = 1; export function stale2(){ return 2; } let secret = 3; throw new Error('late');", "path": "/a/main.ts"},
+})
+
 NAMES = "typeof secret+'|'+typeof inner+'|'+typeof loc1+'|'+typeof blockv"
 OBSERVERS = [
     {"name": "typeof-names", "src": NAMES + "+'|'+(function(){ return typeof this; })()+'|'+typeof e+'|'+typeof exported+'|'+typeof d"},
@@ -66,6 +75,8 @@ OBSERVERS = [
     {"name": "finally-completion", "src": "var oo = []; function ff(){ try { return 1; } finally { oo.push('f'); } } function gg(){ for (var i = 0; i < 2; i++) { try { continue; } finally { oo.push('c' + i); } } return 'g'; } [ff(), gg(), oo.join()].join('|')"},
     {"name": "order-roundtrip", "src": "import { order } from 'tsrun:host'; const v = await order('b'); typeof v + ':' + v"},
     {"name": "module-import", "src": "import { d } from './dep.ts'; export const mine = d + '?' + typeof (globalThis as any).leakedGlobal; mine", "path": "/b/main.ts", "modules": [BDEP]},
+    {"name": "import-earlier-main", "src": "import * as prev from '/a/main.ts'; export const seen = Object.keys(prev).sort().join(); seen", "path": "/c/obs.ts", "skip_if_a_completed": True},
+    {"name": "module-with-own-exports", "src": "export const mine1 = 1; export default function dd(){ return 2; } mine1", "path": "/c/obs2.ts"},
     {"name": "generator-async", "src": "async function af(){ await null; return 5; } af(); function* gen(){ try { yield 1; yield 2; } finally { } } var acc = []; for (const x of gen()) { acc.push(x); } acc.join() + '|' + [...gen()].length"},
     {"name": "exception-handlers", "src": "var log = []; try { try { null.x; } finally { log.push('fin'); } } catch (err) { log.push(err instanceof TypeError); } try { undefinedFunctionName(); } catch (err2) { log.push(err2.name); } log.join()"},
 ]
@@ -83,14 +94,17 @@ def run(tier, seed):
         cases.append({"id": "single|" + n, "prefix": [], "a": mk(A_PROGRAMS[n]), "observers": OBSERVERS, "stride": 1})
     # histories of two runs: an earlier run abandoned at a few points, then A with every crash point
     firsts = names[:8] if tier == "quick" else names
-    seconds = ["callee-locals", "module-throws", "generator-mid"] if tier == "quick" else names[::3]
+    seconds = ["callee-locals", "module-throws", "generator-mid", "eval-script-order", "eval-module-order"] if tier == "quick" else names[::3] + ["eval-script-order", "eval-script-plain", "eval-module-order", "eval-module-throws"]
+    firsts = firsts + ["module-exports-then-throws", "eval-module-throws"] if tier == "quick" else firsts
     for f in firsts:
         for stop in ([7, None] if tier == "quick" else [3, 7, 15, 40, None]):
             for s in seconds:
                 p = dict(mk(A_PROGRAMS[f]))
                 if stop is not None:
                     p["stop"] = stop
-                cases.append({"id": "history|%s@%s|%s" % (f, stop, s), "prefix": [p], "a": mk(A_PROGRAMS[s]), "observers": OBSERVERS[:4] + OBSERVERS[5:], "stride": 3 if tier == "quick" else 1})
+                # (after a prefix run that was driven to its end the earlier main module may legitimately be loaded)
+                obs = [o for o in OBSERVERS[:4] + OBSERVERS[5:] if not (o["name"] == "import-earlier-main" and stop is None)]
+                cases.append({"id": "history|%s@%s|%s" % (f, stop, s), "prefix": [p], "a": mk(A_PROGRAMS[s]), "observers": obs, "stride": 3 if tier == "quick" else 1})
     res = core.run_batch(cases, sub_args=("reuse",), hang_s=300, as_gb=2)
     runs = 0
     points = 0
